@@ -7,6 +7,7 @@ import AnyVecModel.Proofs.Exec
 import AnyVecModel.Proofs.KernelView
 import AnyVecModel.Proofs.KernelStackAlign
 import AnyVecModel.Proofs.KernelPtrAt
+import AnyVecModel.Proofs.KernelMemAccess
 import AnyVecModel.Props.Refine
 namespace AnyVec
 namespace C12
@@ -125,6 +126,29 @@ theorem element_pointers_are_the_source (index size : Nat) (known : Bool) :
     Gen.Kernel.element_ptr_at_off index size known = index * size ∧
     Gen.Kernel.element_mut_ptr_at_off index size known = index * size :=
   KernelTie.element_ptr_at_tie index size known
+
+/-- **source tie**: the storage pointer and layout every view starts from are the backend's own fields - `as_ptr()` and
+`as_mut_ptr()` of each of the four backends (`/repo/src/mem/{heap,stack,stack_n,empty}.rs`, read on this run) return the
+same buffer (`self.mem`, or the dangling pointer *of the element layout* for `Empty`), `element_layout()` returns the
+stored layout, and the unallocated pointer (`mem::dangling`) is the layout's alignment - so it is aligned for the
+element type. -/
+theorem storage_pointers_are_the_source :
+    Gen.Kernel.heap_mem_accessors.lookup "as_ptr" = Gen.Kernel.heap_mem_accessors.lookup "as_mut_ptr" ∧
+    Gen.Kernel.empty_mem_accessors.lookup "as_ptr" = Gen.Kernel.empty_mem_accessors.lookup "as_mut_ptr" ∧
+    Gen.Kernel.stack_mem_accessors.lookup "as_ptr" = some "self . mem . as_ptr ( ) as * const u8" ∧
+    Gen.Kernel.stack_mem_accessors.lookup "as_mut_ptr" = some "self . mem . as_mut_ptr ( ) as * mut u8" ∧
+    Gen.Kernel.stackn_mem_accessors.lookup "as_ptr" = some "self . mem . as_ptr ( ) as * const u8" ∧
+    Gen.Kernel.stackn_mem_accessors.lookup "as_mut_ptr" = some "self . mem . as_mut_ptr ( ) as * mut u8" ∧
+    (∀ t ∈ [Gen.Kernel.heap_mem_accessors, Gen.Kernel.stack_mem_accessors, Gen.Kernel.stackn_mem_accessors,
+            Gen.Kernel.empty_mem_accessors], t.lookup "element_layout" = some "self . element_layout") ∧
+    Gen.Kernel.mem_mod_helpers =
+      [("dangling", "# [ cfg ( miri ) ] { layout . dangling ( ) } # [ cfg ( not ( miri ) ) ] { unsafe { NonNull :: new_unchecked ( layout . align ( ) as * mut u8 ) } }")] := by
+  obtain ⟨h1, h2, h3, h4, h5⟩ := KernelTie.mem_accessors_tie
+  rw [h1, h2, h3, h4]
+  refine ⟨rfl, rfl, rfl, rfl, rfl, rfl, ?_, h5⟩
+  intro t ht
+  simp only [List.mem_cons, List.not_mem_nil, or_false] at ht
+  rcases ht with rfl | rfl | rfl | rfl <;> rfl
 
 /-! ### the views of a vector that shows an abstract vector (Props/Refine.lean) -/
 
